@@ -9,7 +9,7 @@ Two translations, both purely syntactic (this script is part of the trusted base
     (or a helper taking such a ctx) dereferences a child accessor `ctx.Child()` / `ctx.Child(i)`
     (a method call or type assertion on the result), with a flag telling whether the same accessor is
     compared with nil earlier in the function body (the guard idiom used throughout the listeners).
-Fails closed: an unparsable grammar or an accessor that names no grammar symbol aborts the build."""
+Fails closed: an unparsable grammar or an accessor that names no grammar symbol breaks the tie (see die())."""
 import os, re, sys, json
 
 REPO = os.environ.get("COCA_REPO", "/repo")
@@ -25,8 +25,20 @@ LISTENERS = [
     "pkg/application/refactor/base/java_refactor_listener.go",
 ]
 
+STATUS = os.path.join(ROOT, "coq", "Generated", "shapes_status.json")
+
+def set_status(failed):
+    txt = json.dumps({"failed": failed})
+    if not os.path.exists(STATUS) or open(STATUS).read() != txt:
+        open(STATUS, "w").write(txt)
+
 def die(msg):
-    sys.stderr.write("gen_shapes: " + msg + "\n"); sys.exit(2)
+    """the tie is broken: with a previous (committed) JavaShapes.v the build goes on with it and exit code 3 tells
+    tools/build.py; tools/check then reports the broken tie for the properties that use the tables (C09)"""
+    sys.stderr.write("gen_shapes: BROKEN TIE: " + msg + "\n")
+    if os.path.exists(OUT):
+        set_status(msg); sys.exit(3)
+    sys.exit(2)
 
 # ------------------------------------------------------------------ grammar
 def tokenize_g4(text):
@@ -296,8 +308,14 @@ def main():
             if all(alt.get(g, 0) > 0 for g in a[4]) and alt.get(a[3], 0) == 0:
                 unsafe.append("%s:%d %s: %s.%s absent in %s" % (a[0], a[5], a[1], a[2], a[3], sorted(k for k, v in alt.items() if v)))
                 break
+    set_status(None)
     json.dump({"rules": len(rules), "accesses": len(accs), "unsafe": unsafe},
               open(os.path.join(ROOT, "coq", "Generated", "shapes.json"), "w"), indent=1)
 
 if __name__ == "__main__":
-    main()
+    try:
+        main()
+    except SystemExit:
+        raise
+    except Exception as e:
+        die("translator failed: %r" % (e,))
